@@ -97,10 +97,82 @@ def instances(tier, seed):
     for order in (0, 1, 2, 3):
         for what in ('variable', 'parameter'):
             add(kind='signal-chain', order=order, what=what)
+    # der() of expressions that MIX several B-spline signals (declared in one order, appearing in another), states and time
+    add(kind='signal-expr')
     return items
 
 
+def run_signal_expr(item):
+    """ocp.der(e) for e over (x, t, s1, s2, p3): proven equal (z3, all values of the symbols and of the derivative symbols) to
+    d_t e + d_x e . f + sum_i d_{s_i} e . der(s_i), every pairing made through the symbol itself (der of ONE signal is C17's subject)"""
+    import z3
+    import time
+    stats = {'unsat': 0, 'sat': 0, 'unknown': 0, 'queries': 0, 'solver_s': 0.0}
+    proved, viol, incon = [], [], []
+    with quiet():
+        ocp = Ocp(T=2)
+        x = ocp.state()
+        s1 = ocp.variable(grid='bspline', order=3)
+        s2 = ocp.variable(grid='bspline', order=2)
+        p3 = ocp.parameter(grid='bspline', order=2)
+        f = -x + s1 * p3
+        ocp.set_der(x, f)
+        t = ocp.t
+        sigs = [s1, s2, p3]
+        dsig = [ocp.der(q) for q in sigs]
+        exprs = [('3*s2 + s1', 3 * s2 + s1), ('s2*s1', s2 * s1), ('p3*s2 - s1*s1*t', p3 * s2 - s1 * s1 * t), ('x*s2 + t*s1 + p3', x * s2 + t * s1 + p3), ('s1 + 3*s2', s1 + 3 * s2),
+                 ('vertcat(s2*x, p3 + s1)', ca.vertcat(s2 * x, p3 + s1))]
+        outs = []
+        for nm, e in exprs:
+            try:
+                d = ocp.der(e)
+            except Exception as ex:
+                viol.append({'property': PROP, 'key': 'signal-expr|raises', 'label': 'der(%s)' % nm, 'detail': 'ocp.der raised on an expression of bspline signals, a state and time: %s' % str(ex)[:160]})
+                continue
+            ref = ca.jtimes(e, x, f) + ca.jtimes(e, t, ca.MX(1))
+            for q, dq in zip(sigs, dsig):
+                ref = ref + ca.jtimes(e, q, dq)
+            outs.append((nm, d - ref))
+    syms = [x, t] + sigs + dsig
+    if outs:
+        prog = SXProgram(syms, [ca.vcat([ca.vec(o) for _, o in outs])])
+        prog.selfcheck(random.Random(2))
+        zdom = Z3Domain(ConstPool())
+        zin = [[z3.Real('a%d_%d' % (i, j)) for j in range(sy.numel())] for i, sy in enumerate(syms)]
+        zout = prog.run(zdom, zin)[0]
+        sol = z3.Solver()
+        sol.set('timeout', 20000)
+        k = 0
+        for nm, o in outs:
+            for j in range(o.numel()):
+                t_ = time.time()
+                sol.push()
+                sol.add(z3.simplify(emb(zout[k])) != 0)
+                r = str(sol.check())
+                sol.pop()
+                stats[r] += 1
+                stats['queries'] += 1
+                stats['solver_s'] += time.time() - t_
+                lab = 'der(%s)[%d]' % (nm, j)
+                if r == 'unsat':
+                    proved.append(lab)
+                elif r == 'sat':
+                    viol.append({'property': PROP, 'key': 'signal-expr|der-mismatch', 'label': lab, 'detail': 'ocp.der(e) differs from d_t e + d_x e . f + sum_i d_{s_i} e . der(s_i) (signals declared in the order s1, s2, p3)'})
+                else:
+                    incon.append({'label': lab, 'why': 'solver ' + r})
+                k += 1
+    res = {'stats': stats, 'obligations': len(proved) + len(viol) + len(incon), 'discharged': len(proved), 'nontrivial': proved, 'violations': viol, 'inconclusive': incon or None,
+           'twins_ok': 0, 'twins_bad': 0, 'shape': 'signal-expr', 'sample': {'kind': 'signal-expr', 'expressions': [nm for nm, _ in exprs]}}
+    if viol:
+        res['status'] = 'violation'
+    elif incon:
+        res['status'] = 'inconclusive'
+    return res
+
+
 def run(item):
+    if item['kind'] == 'signal-expr':
+        return run_signal_expr(item)
     import z3
     import time
     stats = {'unsat': 0, 'sat': 0, 'unknown': 0, 'queries': 0, 'solver_s': 0.0}
